@@ -35,6 +35,7 @@ type sig struct {
 }
 
 type step struct {
+	Kind     string          `json:"kind"`
 	Op       string          `json:"op"`
 	Claimed  string          `json:"claimed"`
 	Ff       string          `json:"ff"`
@@ -92,10 +93,21 @@ func (w *world) from(claimed, ff string) string {
 }
 
 // txJSON renders a transfer transaction; variant selects the message ("this" / "other" differ in the nonce)
-func txJSON(from, msg string, salt int, sigB64 *string) []byte {
+func txJSON(kind, from, msg string, salt int, sigB64 *string, id []byte) []byte {
 	nonce := 1
 	if msg != "this" {
 		nonce = 2
+	}
+	if kind == "v2" { // version 2: no version field, fixed fee, tx_hash = id
+		s := fmt.Sprintf(`{"from":"%s","to":"hx%040x","value":"0x%x","fee":"0x2386f26fc10000","timestamp":"%d","nonce":"0x%x"`,
+			from, 0xbeef+salt, 1000+salt, 1516942975500598+salt, nonce)
+		if id != nil {
+			s += fmt.Sprintf(`,"tx_hash":"%x"`, id)
+		}
+		if sigB64 != nil {
+			s += fmt.Sprintf(`,"signature":"%s"`, *sigB64)
+		}
+		return []byte(s + "}")
 	}
 	s := fmt.Sprintf(`{"version":"0x3","from":"%s","to":"hx%040x","value":"0x%x","stepLimit":"0x186a0","timestamp":"0x%x","nid":"0x1","nonce":"0x%x"`,
 		from, 0xbeef+salt, 1000+salt, 1600000000000000+salt, nonce)
@@ -182,11 +194,11 @@ func (w *world) run(s step, salt int) *fail {
 		from := w.from(s.Claimed, s.Ff)
 		// the id of THIS transaction and the message the signer actually signed (the id of the same transaction
 		// with the other nonce when sig.m differs from m)
-		thisID, err := idOf(txJSON(from, s.M, salt, nil))
+		thisID, err := idOf(txJSON(s.Kind, from, s.M, salt, nil, nil))
 		if err != nil {
 			return &fail{"txauth:driver", "cannot parse the unsigned transaction: " + err.Error(), true}
 		}
-		signedID, err := idOf(txJSON(from, s.Sig.M, salt, nil))
+		signedID, err := idOf(txJSON(s.Kind, from, s.Sig.M, salt, nil, nil))
 		if err != nil {
 			return &fail{"txauth:driver", err.Error(), true}
 		}
@@ -198,7 +210,7 @@ func (w *world) run(s step, salt int) *fail {
 			return &fail{"txauth:driver", "cannot sign: " + err.Error(), true}
 		}
 		b64 := base64.StdEncoding.EncodeToString(w.wire(rsv, s.Sig))
-		js := txJSON(from, s.M, salt, &b64)
+		js := txJSON(s.Kind, from, s.M, salt, &b64, thisID)
 		got := "accept"
 		tx, err := transaction.NewTransactionFromJSON(js)
 		if err != nil {
@@ -219,7 +231,7 @@ func (w *world) run(s step, salt int) *fail {
 		if got == want {
 			return nil
 		}
-		descr := fmt.Sprintf("claimed sender %s (from form %s), signature by %s over the id of %q (tx is %q), V %s, R %s, S %s, %d bytes",
+		descr := fmt.Sprintf(s.Kind+" transaction: claimed sender %s (from form %s), signature by %s over the id of %q (tx is %q), V %s, R %s, S %s, %d bytes",
 			s.Claimed, s.Ff, s.Sig.K, s.Sig.M, s.M, s.Sig.V, s.Sig.R, s.Sig.S, s.Sig.Len)
 		if got == "accept" {
 			return &fail{"txauth:accepted:" + classOf(s), "Verify() ACCEPTS a transaction it must reject: " + descr + "\n" + string(js), false}
@@ -364,7 +376,7 @@ func TestReplay(t *testing.T) {
 		var f *fail
 		sigs := ""
 		for _, s := range steps {
-			sigs += fmt.Sprintf("%s:%s:%s:%s:%+v:%s:%d;", s.Op, s.Claimed, s.Ff, s.M, s.Sig, s.K, s.Hlen)
+			sigs += fmt.Sprintf("%s:%s:%s:%s:%s:%+v:%s:%d;", s.Kind, s.Op, s.Claimed, s.Ff, s.M, s.Sig, s.K, s.Hlen)
 			func() {
 				defer func() {
 					if r := recover(); r != nil {
